@@ -2,7 +2,7 @@
 # usage: tools/seed_queue.sh "C17 m1" "C17 m2" ...
 # Appends the given seeds to a queue; a single runner (flock) processes the queue sequentially
 # with tools/confirm_seed.sh and logs one SEED line per step to /tmp/w/seedq.log.
-q=/tmp/w/seedq.txt; log=/tmp/w/seedq.log; lock=/tmp/w/seedq.lock
+lane="${SEED_LANE:-}"; q=/tmp/w/seedq$lane.txt; log=/tmp/w/seedq.log; lock=/tmp/w/seedq$lane.lock
 mkdir -p /tmp/w
 for s in "$@"; do echo "$s" >> "$q"; done
 exec 9>"$lock"
